@@ -306,6 +306,19 @@ class Model:
 # ------------------------------------------------------------------ a check run
 
 
+def matches_known(prop, f):
+    """does the oracle failure record f match a committed `known` finding of this property?
+    (same rule as in ./check: every key of the entry's `match` equals the record's field or its case's field)"""
+    for k in load_known():
+        if k.get("property") != prop or k.get("status") != "known":
+            continue
+        cond = k.get("match", {})
+        if cond and all(f.get(kk, (f.get("case") or {}).get(kk) if isinstance(f.get("case"), dict) else None) == v
+                        for kk, v in cond.items()):
+            return True
+    return False
+
+
 def load_known():
     p = os.path.join(VERIF, "known_findings.json")
     if not os.path.exists(p):
